@@ -121,6 +121,12 @@ func (b *Body) call(v ssa.Value, c *ssa.CallCommon, blk *ssa.BasicBlock, reach *
 	switch {
 	case fn != nil && fn.Blocks != nil && (clos != nil && fn.Parent() != nil || con != nil && con.Inline) && b.depth < 4:
 		b.inline(v, fn, clos, args, blk, reach, st, pos)
+	case con == nil && fn != nil && fn.Blocks != nil && b.depth < 2 && isRepoPkg(fn.Pkg) && ft.adoptsOrphanLoop(fn):
+		// an uncontracted helper that contains a loop one of this function's invariants is waiting for
+		ft.adoptFn = fn
+		b.inline(v, fn, nil, args, blk, reach, st, pos)
+		ft.adoptFn = nil
+		ft.abstraction("helper " + fn.Name() + " inlined: it contains a loop that an invariant of this function is keyed to")
 	case con != nil:
 		b.applyContract(v, con, key, sig, c, args, blk, reach, st, pos)
 	default:
@@ -563,6 +569,9 @@ func (b *Body) inline(v ssa.Value, fn *ssa.Function, clos *Closure, args []*Val,
 	n := ft.count("inline")
 	sub := ft.newBody(fn, fmt.Sprintf("%si%d.", b.prefix, n), b.loopsOf(blk), b.depth+1)
 	sub.parent = b
+	if ft.adoptFn == fn {
+		ft.adoptedBodies[sub] = true
+	}
 	sub.callBlk = blk
 	for i, p := range fn.Params {
 		if i < len(args) {
@@ -998,6 +1007,23 @@ func sharesTag(a, b []string) bool {
 			if x == y {
 				return true
 			}
+		}
+	}
+	return false
+}
+
+// adoptsOrphanLoop: fn has a range loop whose key is one of the orphan keys.
+func (ft *FT) adoptsOrphanLoop(fn *ssa.Function) bool {
+	if len(ft.orphanKeys) == 0 {
+		return false
+	}
+	probe := ft.newBody(fn, "probe.", nil, 9)
+	for _, lp := range probe.loops {
+		if lp.RangeOf == "" {
+			lp.RangeOf = ft.e.rangeText(fn, lp)
+		}
+		if lp.RangeOf != "" && ft.orphanKeys["range("+lp.RangeOf+")"] {
+			return true
 		}
 	}
 	return false
